@@ -547,14 +547,18 @@ def run_case(case, ctx):
         {"shuffle": _shuffle, "sort": _sort, "set_index": _set_index, "dedup": _dedup}[case["op"]](case, ctx, pdf, ddf)
 
 
-def _guard(ctx, feat, fn, desc, refine=None):
+def _guard(ctx, feat, fn, desc, refine=None, collapse=None):
     """run a dask-side thunk; classify exceptions.  -> (ok, value).  ``refine()`` -> extra input-feature predicate
-    (evaluated only when an exception has to be labelled)"""
+    (evaluated only when an exception has to be labelled).  ``collapse`` = (exception types, label): these exceptions are
+    one symptom of a mechanism that also shows as wrong rows -> that ONE label"""
     try:
         return True, fn()
     except NotImplementedError as e:
         ctx.unsupported("%s: %s" % (feat, e))
     except Exception as e:  # noqa: BLE001
+        if collapse is not None and isinstance(e, collapse[0]) and dask_frame_of(e):
+            ctx.violation(collapse[1], "%s: %s" % (type(e).__name__, str(e)[:300]), case=desc)
+            return False, None
         extra = ""
         if refine is not None:
             try:
@@ -563,6 +567,12 @@ def _guard(ctx, feat, fn, desc, refine=None):
                 extra = ""
         ctx.exception(e, prefix=feat + extra, case=desc)
     return False, None
+
+
+def dask_frame_of(e):
+    from vf.core.ctx import dask_frame, through_shim
+
+    return dask_frame(e) is not None and not through_shim(e)
 
 
 def _all_na_partition(ddf, col):
@@ -784,7 +794,9 @@ def _shuffle(case, ctx, pdf, ddf):
             r = r[r[pfilter[1]] >= pfilter[2]]
         return _parts(r, accessor=case.get("accessor"))
 
-    ok, parts = _guard(ctx, pfeat or (feat + ":" + view), build, desc)
+    # (a row filter after a shuffle keyed by a separate collection: misaligned key -> ValueError or wrong rows, one label)
+    coll = (ValueError, pfeat + ":rows") if pfeat and "&on-dask-collection:then-filter" in pfeat else None
+    ok, parts = _guard(ctx, pfeat or (feat + ":" + view), build, desc, collapse=coll)
     if not ok:
         return
     if x.get("ser"):
@@ -1161,11 +1173,21 @@ def _sorted_post(ctx, facet, feat, efeat, feat2, r, exp, pdf, parts, post, info,
         thr = _threshold(exp, fc, post["q"])
         if thr is None:
             return
-        ok, p2 = _guard(ctx, "%s:filter" % efeat, lambda: _parts(r[r[fc] >= thr]), desc)
+        ser = "&other=series" in efeat        # key given as a separate Series: ValueError or wrong rows are ONE mechanism
+        ok, p2 = _guard(ctx, "%s:filter" % efeat, lambda: _parts(r[r[fc] >= thr]), desc,
+                        collapse=(ValueError, "%s:filter:rows" % efeat) if ser else None)
         if not ok:
             return
         ctx.count("%s_then_filter" % facet)
         e2 = exp[exp[fc] >= thr]
+        if ser:
+            from vf.gen import frames as F
+
+            m = F.compare(_concat(p2, e2), e2, ordered=False)
+            if m is not None:
+                ctx.violation("%s:filter:rows" % efeat, "rows of set_index(<series>)[row filter] differ from pandas (as multisets): %s: %s"
+                              % (m[0], m[1][:300]), case=desc)
+                return
         _ordered_check(ctx, feat, "filter", _concat(p2, e2), e2, keyframe, what, desc, check_index=ci, feat2=feat2)
 
 
@@ -1546,10 +1568,13 @@ def _dedup(case, ctx, pdf, ddf):
     sc = case["scol"]
     ps, ds = pdf[sc], ddf[sc]
     dk = _kindof(ps.dtype)
+    xpre = None
     if x.get("serpre"):
         # the column of a frame that was shuffled on it before (partitioning knowledge reaches the Series reduction)
         ds = ddf.shuffle(on=[sc], shuffle_method=method).assign(zz=1)[sc]
         ctx.count("series_dedup_after_shuffle")
+        if ddf.npartitions == 1 and so is not True and so > 1:
+            xpre = "dedup:pre-shuffled&single-input-partition&split_out>1"      # (one mechanism for every reduction)
     if kind == "series":
         if keep is False:
             try:
@@ -1561,7 +1586,7 @@ def _dedup(case, ctx, pdf, ddf):
         feat = "drop_duplicates:series:%s&keep=%s:%s" % (dk, keep, sfeat)
         exp = ps.drop_duplicates(keep=keep)
         kwargs = {"keep": keep, "split_out": so, "split_every": se, "shuffle_method": method, "ignore_index": case["ignore_index"]}
-        ok, got = _guard(ctx, feat, lambda: _concat(_parts(ds.drop_duplicates(**kwargs)), ps), desc)
+        ok, got = _guard(ctx, xpre or feat, lambda: _concat(_parts(ds.drop_duplicates(**kwargs)), ps), desc)
         if not ok:
             return
         ctx.count("drop_duplicates_checked")
@@ -1581,7 +1606,7 @@ def _dedup(case, ctx, pdf, ddf):
     if kind == "series_unique":
         feat = "unique:series:%s:%s" % (dk, sfeat)
         exp = ps.unique()
-        ok, got = _guard(ctx, feat, lambda: ds.unique(split_every=se, split_out=so, shuffle_method=method).compute(scheduler="sync"), desc)
+        ok, got = _guard(ctx, xpre or feat, lambda: ds.unique(split_every=se, split_out=so, shuffle_method=method).compute(scheduler="sync"), desc)
         if not ok:
             return
         ctx.count("unique_checked")
@@ -1597,7 +1622,7 @@ def _dedup(case, ctx, pdf, ddf):
         kwargs = {"dropna": case["dropna"], "split_out": so}
         if se is not None:
             kwargs["split_every"] = se
-        ok, got = _guard(ctx, feat, lambda: ds.nunique(**kwargs).compute(scheduler="sync"), desc)
+        ok, got = _guard(ctx, xpre or feat, lambda: ds.nunique(**kwargs).compute(scheduler="sync"), desc)
         if not ok:
             return
         ctx.count("nunique_checked")
